@@ -30,10 +30,10 @@ impl Hasher for Rec {
         self.n += 1;
     }
 }
-fn fed<T: Hash>(t: &T) -> ([u64; 4], usize, usize) {
+fn fed<T: Hash>(t: &T) -> (u64, usize, usize) {
     let mut r = Rec::default();
     t.hash(&mut r);
-    (r.words, r.n, r.bytes)
+    (r.words[0], r.n, r.bytes)
 }
 
 /// Entity handles: every conversion over an arbitrary 64-bit handle; ids 3 and 254 declared.
@@ -96,7 +96,7 @@ pub fn entity_conversions() {
     let (w1, n1, b1) = fed(&h);
     let (w2, n2, b2) = fed(&h2);
     assert!(n1 == 1 && n2 == 1 && b1 == 0 && b2 == 0, "handle hashing is not a single u64");
-    assert!((w1[0] == w2[0]) == (h == h2), "hash input is not an injective function of (key, generation)");
+    assert!((w1 == w2) == (h == h2), "hash input is not an injective function of (key, generation)");
     cover!(id == 3 && h != h2, "declared id, two different handles");
     cover!(id == 254, "second declared id");
     cover!(id != 3 && id != 254, "undeclared id");
@@ -138,7 +138,7 @@ pub fn direct_conversions() {
     let db: EntityDirectAny = if other2 { direct_of::<Other>(idx2, ver2).into() } else { direct_of::<Tri>(idx2, ver2).into() };
     let same = idx == idx2 && ver == ver2 && other == other2;
     assert!((da == db) == same, "Eq on direct handles is not bitwise");
-    assert!((fed(&da).0[0] == fed(&db).0[0]) == same, "hash input of direct handles is not injective");
+    assert!((fed(&da).0 == fed(&db).0) == same, "hash input of direct handles is not injective");
     cover!(same, "equal direct handles");
     cover!(idx == idx2 && ver == ver2 && other != other2, "same index and version in two archetypes");
 }
@@ -170,6 +170,6 @@ pub fn created_ids() {
     std::mem::forget(world);
 }
 
-harness! { fn c14_entity_conversions() unwind(6) { entity_conversions() } }
-harness! { fn c14_direct_conversions() unwind(6) { direct_conversions() } }
-harness! { fn c14_created_ids() unwind(4) { created_ids() } }
+harness! { fn c14_entity_conversions() unwind(10) { entity_conversions() } }
+harness! { fn c14_direct_conversions() unwind(10) { direct_conversions() } }
+harness! { fn c14_created_ids() unwind(10) { created_ids() } }
